@@ -6,6 +6,7 @@ import (
 
 	"github.com/hydraide/hydraide/app/core/hydra/swamp/treasure"
 	"github.com/hydraide/hydraide/app/core/hydra/swamp/treasure/msgpackpatch"
+	"github.com/hydraide/hydraide/app/verifhook"
 )
 
 // PatchExpired atomically selects up to howMany expired treasures from
@@ -57,6 +58,9 @@ func (s *swamp) PatchExpired(howMany int32, ops []msgpackpatch.Op, condition *ms
 	s.buildBeacon(s.expirationTimeBeaconASC, s.expirationTimeBeaconDESC, BeaconTypeExpirationTime)
 
 	selected, capReached := s.expirationTimeBeaconASC.SelectExpiredForPatchWithCap(int(howMany), selectionPredicate, capPredicate, int(capMax))
+	if verifhook.Enabled {
+		verifhook.Yield("patchexpired.selected", s, len(selected))
+	}
 	if len(selected) == 0 {
 		return nil, capReached, nil
 	}
@@ -163,6 +167,9 @@ func (s *swamp) applyPatchExpiredOne(treasureObj treasure.Treasure, ops []msgpac
 	applyPatchMeta(treasureObj, guardID, meta, false)
 	treasureObj.Save(guardID)
 
+	if verifhook.Enabled {
+		verifhook.Trace("patchexpired.patched", "s", s, "t", treasureObj, "key", entry.Key)
+	}
 	entry.Status = PatchStatusPatched
 	entry.NewMsgpack = out
 	entry.ExpiredAt = expirationTimeAsTime(treasureObj.GetExpirationTime())
